@@ -7,7 +7,6 @@ import (
 	"database/sql"
 	"database/sql/driver"
 	"encoding/json"
-	"errors"
 	"fmt"
 	"reflect"
 	"strconv"
@@ -15,115 +14,17 @@ import (
 
 	"github.com/DATA-DOG/go-sqlmock"
 	"github.com/gotid/god/internal/verifdrv"
+	"github.com/gotid/god/internal/verifsql"
 	"github.com/gotid/god/lib/breaker"
 	"github.com/gotid/god/lib/logx"
 )
 
 // ---------------------------------------------------------------- transactions
 
-// verifRec is a recording SQL driver: every Begin/Exec/Commit/Rollback reaching it is
-// logged together with whether it was answered with an error (scripted faults).
-type verifRec struct {
-	calls                   []string
-	begin, commit, rollback bool   // fail?
-	execFail                []bool // per statement
-	nexec                   int
-}
-
-var (
-	errVerifBegin    = errors.New("E:begin")
-	errVerifCommit   = errors.New("E:commit")
-	errVerifRollback = errors.New("E:rollback")
-)
-
-type verifExecErr struct{ i int }
-
-func (e *verifExecErr) Error() string { return "E:exec:" + strconv.Itoa(e.i) }
-
-type verifBodyErr struct{ n int }
-
-func (e *verifBodyErr) Error() string { return "E:body:" + strconv.Itoa(e.n) }
-
-func (r *verifRec) log(what string, failed bool) {
-	if failed {
-		r.calls = append(r.calls, what+":fail")
-	} else {
-		r.calls = append(r.calls, what+":ok")
-	}
-}
-
-type verifConnector struct{ r *verifRec }
-
-func (c verifConnector) Connect(context.Context) (driver.Conn, error) { return verifConn{c.r}, nil }
-func (c verifConnector) Driver() driver.Driver                        { return verifDriver{} }
-
-type verifDriver struct{}
-
-func (verifDriver) Open(string) (driver.Conn, error) {
-	return nil, errors.New("verif: use the connector")
-}
-
-type verifConn struct{ r *verifRec }
-
-func (c verifConn) Prepare(string) (driver.Stmt, error) { return nil, errors.New("verif: no prepare") }
-func (c verifConn) Close() error                        { return nil }
-func (c verifConn) Begin() (driver.Tx, error) {
-	c.r.log("begin", c.r.begin)
-	if c.r.begin {
-		return nil, errVerifBegin
-	}
-	return verifTx{c.r}, nil
-}
-
-func (c verifConn) ExecContext(_ context.Context, _ string, _ []driver.NamedValue) (driver.Result, error) {
-	i := c.r.nexec
-	c.r.nexec++
-	failed := i < len(c.r.execFail) && c.r.execFail[i]
-	c.r.log("exec:"+strconv.Itoa(i), failed)
-	if failed {
-		return nil, &verifExecErr{i}
-	}
-	return driver.RowsAffected(1), nil
-}
-
-type verifTx struct{ r *verifRec }
-
-func (t verifTx) Commit() error {
-	t.r.log("commit", t.r.commit)
-	if t.r.commit {
-		return errVerifCommit
-	}
-	return nil
-}
-
-func (t verifTx) Rollback() error {
-	t.r.log("rollback", t.r.rollback)
-	if t.r.rollback {
-		return errVerifRollback
-	}
-	return nil
-}
-
-type verifStmt struct {
-	Fail  bool   `json:"fail"`
-	React string `json:"react"` // return | ignore | panic
-	P     int    `json:"p"`
-}
-
-type verifFinal struct {
-	K string `json:"k"` // nil | err | panic
-	N int    `json:"n"`
-}
-
 type verifCase struct {
 	T string `json:"t"` // tx | orm
-	// tx
-	Begin    bool        `json:"begin"`
-	Commit   bool        `json:"commit"`
-	Rollback bool        `json:"rollback"`
-	Stmts    []verifStmt `json:"stmts"`
-	Final    verifFinal  `json:"final"`
-	API      string      `json:"api"` // transact | transactctx
+	// tx: driver faults (with kinds), body script, API, log switches
+	verifsql.TxCase
 	// orm
 	Mode   string     `json:"mode"` // row | rows
 	Strict bool       `json:"strict"`
@@ -162,31 +63,10 @@ func (t verifTrans) Rollback() error {
 
 // verifErr describes an error without interpreting it: identity with one of the sentinels,
 // message, and the same for what it wraps.
-func verifErr(err error) any {
-	if err == nil {
-		return nil
-	}
-	out := map[string]any{"is": verifSentinel(err), "msg": err.Error()}
-	if u := errors.Unwrap(err); u != nil {
-		out["unwrap"] = verifSentinel(u)
-	}
-	return out
-}
+func verifErr(err error) any { return verifsql.ErrInfo(err, verifSentinel) }
 
 func verifSentinel(err error) string {
-	switch e := err.(type) {
-	case *verifExecErr:
-		return "exec:" + strconv.Itoa(e.i)
-	case *verifBodyErr:
-		return "body:" + strconv.Itoa(e.n)
-	}
 	switch err {
-	case errVerifBegin:
-		return "begin"
-	case errVerifCommit:
-		return "commit"
-	case errVerifRollback:
-		return "rollback"
 	case breaker.ErrServiceUnavailable:
 		return "unavailable"
 	case sql.ErrNoRows:
@@ -203,35 +83,50 @@ func verifSentinel(err error) string {
 	return ""
 }
 
-func verifTxCase(c verifCase) any {
-	rec := &verifRec{begin: c.Begin, commit: c.Commit, rollback: c.Rollback}
-	for _, s := range c.Stmts {
-		rec.execFail = append(rec.execFail, s.Fail)
+// verifSessionOps: what a body script does to its sqlx session.
+func verifSessionOps(s Session) verifsql.Ops {
+	return verifsql.Ops{
+		Exec: func(q string) error {
+			_, err := s.Exec(q)
+			return err
+		},
+		PrepExec: func(q string) error {
+			st, err := s.Prepare(q)
+			if err != nil {
+				return fmt.Errorf("verif: prepare failed: %v", err)
+			}
+			defer st.Close()
+			_, err = st.Exec()
+			return err
+		},
+		Query: func(q string) error {
+			var x int64
+			return s.QueryRow(&x, q)
+		},
 	}
-	db := sql.OpenDB(verifConnector{rec})
+}
+
+func verifTxCase(c verifCase) any {
+	db, rec := verifsql.Open(c.TxCase)
 	defer db.Close()
 	conn := NewConnFromDB(db)
 
-	body := func(s Session) error {
-		for i, st := range c.Stmts {
-			_, err := s.Exec("update t set x = " + strconv.Itoa(i))
-			if err != nil {
-				switch st.React {
-				case "return":
-					return err
-				case "panic":
-					panic("P:" + strconv.Itoa(st.P))
-				}
-			}
-		}
-		switch c.Final.K {
-		case "err":
-			return &verifBodyErr{c.Final.N}
-		case "panic":
-			panic("P:" + strconv.Itoa(c.Final.N))
-		}
-		return nil
+	// statement-log switches: the real DisableStmtLog / DisableLog, restored afterwards
+	threshold := defaultSlowThreshold
+	if c.Slow {
+		threshold = -1
 	}
+	restore := VerifSetSwitches(true, true, threshold)
+	defer restore()
+	switch c.Log {
+	case 1:
+		DisableStmtLog()
+	case 2:
+		DisableLog()
+	}
+
+	var obs verifsql.BodyObs
+	body := func(s Session) error { return verifsql.RunBody(c.TxCase, rec, verifSessionOps(s), &obs) }
 
 	var err error
 	escaped, pval := verifdrv.Catch(func() {
@@ -241,9 +136,12 @@ func verifTxCase(c verifCase) any {
 			err = conn.Transact(body)
 		}
 	})
-	out := map[string]any{"err": verifErr(err), "calls": rec.calls, "escaped": nil}
-	if rec.calls == nil {
+	out := map[string]any{"err": verifErr(err), "calls": rec.Calls, "escaped": nil, "runs": obs.Runs, "seen": obs.Seen}
+	if rec.Calls == nil {
 		out["calls"] = []string{}
+	}
+	if obs.Seen == nil {
+		out["seen"] = []bool{}
 	}
 	if escaped {
 		out["escaped"] = pval
@@ -472,10 +370,12 @@ func verifOrmCase(c verifCase) any {
 	var qpanic any
 	inTx := c.Via == "tx" || c.Via == "txstmt"
 	var txlog []string
+	txruns := 0
 	// inside a transaction: the body returns the query's own error; what the query did (error,
 	// panic) is recorded inside the body, Commit/Rollback by wrapping the session's trans
 	txBody := func(run func(Session) error) func(Session) error {
 		return func(s Session) (err error) {
+			txruns++
 			defer func() {
 				if p := recover(); p != nil {
 					qpanic = p
@@ -535,7 +435,7 @@ func verifOrmCase(c verifCase) any {
 			txlog = []string{}
 		}
 		out["tx"] = map[string]any{"err": verifErr(txerr), "same": txerr != nil && txerr == qerr,
-			"calls": txlog, "escaped": panicked}
+			"calls": txlog, "escaped": panicked, "runs": txruns}
 	}
 	dump := [][]any{}
 	if c.Shape.D == "slice" {
